@@ -24,38 +24,37 @@ XS = 'http://www.w3.org/2001/XMLSchema'
 SYMBOLS = {
     'a': (TNS, 'a'), 'b': (TNS, 'b'), 'c': (TNS, 'c'),
     'h': (TNS, 'h'), 'm': (TNS, 'm'), 'k': (TNS, 'k'),   # head, member, abstract-able member
+    'j': (TNS, 'j'),                                       # member of k's group: substitutes h transitively
     'x': (N1, 'x'),                                        # foreign namespace
     'n': ('', 'n'),                                        # no namespace
     'u': (TNS, 'u'),                                       # target namespace, never declared
 }
 ELEMENT_NAMES = ('a', 'b', 'c')
 WILDCARD_CONS = ('any', 'other', 'local', 'tns', 'n1')
+# further constraints: namespace lists (XSD 1.0 and 1.1) and notNamespace (1.1 only)
+WILDCARD_CONS_MORE = ('n1_local', 'tns_n1', 'not_n1', 'not_tns')
+# constraint -> ('in' | 'notin', set of namespaces)
+WILDCARD_SETS = {'any': ('notin', frozenset()), 'other': ('notin', frozenset(('', TNS))), 'local': ('in', frozenset(('',))),
+                 'tns': ('in', frozenset((TNS,))), 'n1': ('in', frozenset((N1,))), 'n1_local': ('in', frozenset((N1, ''))),
+                 'tns_n1': ('in', frozenset((TNS, N1))), 'not_n1': ('notin', frozenset((N1,))), 'not_tns': ('notin', frozenset((TNS,)))}
 OCCURS = ((0, 1), (1, 1), (0, None), (1, None), (0, 2), (1, 2), (2, 2), (2, 3), (2, None), (0, 3))
 
 
 def wildcard_admits(con, sym):
     ns = SYMBOLS[sym][0]
-    if con == 'any':
-        return True
-    if con == 'other':
-        return ns not in ('', TNS)
-    if con == 'local':
-        return ns == ''
-    if con == 'tns':
-        return ns == TNS
-    if con == 'n1':
-        return ns == N1
-    raise ValueError(con)
+    kind, nss = WILDCARD_SETS[con]
+    return (ns in nss) == (kind == 'in')
 
 
 def head_members(subst):
-    """Symbols accepted by a reference to head h under a substitution configuration."""
+    """Symbols accepted by a reference to head h under a substitution configuration (j substitutes k, which
+    substitutes h: membership is transitive, also through an abstract k)."""
     if subst == 'plain':
-        return {'h', 'm', 'k'}
+        return {'h', 'm', 'k', 'j'}
     if subst == 'head_abstract':
-        return {'m', 'k'}
+        return {'m', 'k', 'j'}
     if subst == 'member_abstract':
-        return {'h', 'm'}
+        return {'h', 'm', 'j'}
     if subst == 'blocked':
         return {'h'}
     raise ValueError(subst)
@@ -140,7 +139,7 @@ def alphabet(node, cfg):
         else:
             syms |= leaf_symbols(lf, cfg.get('subst', 'plain'))
             if lf[0] == 'h':
-                syms |= {'h', 'm', 'k'}
+                syms |= {'h', 'm', 'k', 'j'}
     if cfg.get('open'):
         for s in ('x', 'n', 'u'):
             if wildcard_admits(cfg['open'][1], s):
@@ -169,7 +168,9 @@ def occ_attrs(mn, mx):
     return s
 
 
-CON_ATTR = {'any': '##any', 'other': '##other', 'local': '##local', 'tns': '##targetNamespace', 'n1': N1}
+CON_ATTR = {'any': '##any', 'other': '##other', 'local': '##local', 'tns': '##targetNamespace', 'n1': N1,
+            'n1_local': N1 + ' ##local', 'tns_n1': '##targetNamespace ' + N1}
+NOT_ATTR = {'not_n1': N1, 'not_tns': '##targetNamespace'}
 
 
 def render_particle(node, cfg, indent='    ', types=None, named=None):
@@ -183,6 +184,8 @@ def render_particle(node, cfg, indent='    ', types=None, named=None):
         return f'{indent}<xs:element ref="t:h"{occ_attrs(*occ(node))}/>\n'
     if k == 'w':
         pc = cfg.get('pc', 'skip')
+        if node[1] in NOT_ATTR:
+            return f'{indent}<xs:any notNamespace="{NOT_ATTR[node[1]]}" processContents="{pc}"{occ_attrs(*occ(node))}/>\n'
         return f'{indent}<xs:any namespace="{CON_ATTR[node[1]]}" processContents="{pc}"{occ_attrs(*occ(node))}/>\n'
     tag = {'s': 'sequence', 'c': 'choice', 'a': 'all'}[k]
     if named is not None and node in named:
@@ -215,7 +218,8 @@ def subst_decls(cfg):
     blk = ' block="substitution"' if subst == 'blocked' else ''
     return (f'  <xs:element name="h" type="xs:string"{habs}{blk}/>\n'
             f'  <xs:element name="m" type="xs:string" substitutionGroup="t:h"/>\n'
-            f'  <xs:element name="k" type="xs:string" substitutionGroup="t:h"{kabs}/>\n')
+            f'  <xs:element name="k" type="xs:string" substitutionGroup="t:h"{kabs}/>\n'
+            f'  <xs:element name="j" type="xs:string" substitutionGroup="t:k"/>\n')
 
 
 def first_nested_group(node):
@@ -352,7 +356,7 @@ def sample_model(rng, max_depth=3, names=ELEMENT_NAMES, leaf_weights=None, kinds
         if k == 'e':
             return ('e', rng.choice(names), o[0], o[1])
         if k == 'w':
-            return ('w', rng.choice(WILDCARD_CONS), o[0], o[1])
+            return ('w', rng.choice(WILDCARD_CONS + WILDCARD_CONS_MORE if rng.random() < 0.3 else WILDCARD_CONS), o[0], o[1])
         return ('h', o[0], o[1])
 
     def group(depth):
